@@ -599,16 +599,18 @@ Definition sep_cond : expr :=
 Definition inc_loc : expr := EIncMem true None 1 (ELocal 3).
 Definition sep_loop : stmt := SWhile sep_cond (SExpr inc_loc).
 Definition lbuf_len_call : expr := ECall F_lbuf_len [ECall F_ex_lbuf []].
+Definition rb_end0 : stmt := SExpr (ESetLocal 5 (ELoad (Some I32) (ELocal 2))).
+Definition rb_lineno : stmt := SExpr (EStore (Some I32) (ELocal 2) (EBin OAdd I32 (ECall F_ex_lineno [ELocal 3]) (EConst 1))).
+Definition rb_beg : stmt :=
+  SExpr (EStore (Some I32) (ELocal 1) (ECond (EIncLocal true 4 (Some I32) 1) (EBin OSub I32 (ELocal 5) (EConst 1)) (EBin OSub I32 (ELoad (Some I32) (ELocal 2)) (EConst 1)))).
+Definition rb_beg2 : stmt :=
+  SIf (ELNot (EIncLocal true 4 (Some I32) 1)) (SExpr (EStore (Some I32) (ELocal 1) (EBin OSub I32 (ELoad (Some I32) (ELocal 2)) (EConst 1)))) SSkip.
+Definition rb_neg : stmt := SIf (EBin OLt I32 (ELoad (Some I32) (ELocal 2)) (EConst 0)) (SReturn (Some (EConst 1))) SSkip.
+Definition rb_brk : stmt := SIf (ELNot rbyte) SBreak SSkip.
+Definition rb_semi : stmt :=
+  SIf (EBin OEq I32 (ECast I32 rbyte) (EConst 59)) (SExpr (EStore (Some I32) (EGlob G_xrow) (EBin OSub I32 (ELoad (Some I32) (ELocal 2)) (EConst 1)))) SSkip.
 Definition rbody : stmt :=
-  SSeq (SExpr (ESetLocal 5 (ELoad (Some I32) (ELocal 2))))
- (SSeq (SExpr (EStore (Some I32) (ELocal 2) (EBin OAdd I32 (ECall F_ex_lineno [ELocal 3]) (EConst 1))))
- (SSeq (SExpr (EStore (Some I32) (ELocal 1) (ECond (EIncLocal true 4 (Some I32) 1) (EBin OSub I32 (ELocal 5) (EConst 1)) (EBin OSub I32 (ELoad (Some I32) (ELocal 2)) (EConst 1)))))
- (SSeq (SIf (ELNot (EIncLocal true 4 (Some I32) 1)) (SExpr (EStore (Some I32) (ELocal 1) (EBin OSub I32 (ELoad (Some I32) (ELocal 2)) (EConst 1)))) SSkip)
- (SSeq (SIf (EBin OLt I32 (ELoad (Some I32) (ELocal 2)) (EConst 0)) (SReturn (Some (EConst 1))) SSkip)
- (SSeq sep_loop
- (SSeq (SIf (ELNot rbyte) SBreak SSkip)
- (SSeq (SIf (EBin OEq I32 (ECast I32 rbyte) (EConst 59)) (SExpr (EStore (Some I32) (EGlob G_xrow) (EBin OSub I32 (ELoad (Some I32) (ELocal 2)) (EConst 1)))) SSkip)
-       (SExpr inc_loc)))))))).
+  SSeq rb_end0 (SSeq rb_lineno (SSeq rb_beg (SSeq rb_beg2 (SSeq rb_neg (SSeq sep_loop (SSeq rb_brk (SSeq rb_semi (SExpr inc_loc)))))))).
 Definition rtail : stmt :=
   SSeq (SIf (EAndAlso (EBin OLt I32 (ELoad (Some I32) (ELocal 1)) (EConst 0)) (EBin OEq I32 (ELoad (Some I32) (ELocal 2)) (EConst 0))) (SExpr (EStore (Some I32) (ELocal 1) (EConst 0))) SSkip)
  (SSeq (SIf (EOrElse (EBin OLt I32 (ELoad (Some I32) (ELocal 1)) (EConst 0)) (EBin OGe I32 (ELoad (Some I32) (ELocal 1)) lbuf_len_call)) (SReturn (Some (EConst 1))) SSkip)
@@ -812,5 +814,138 @@ Section Region.
     destruct (len <? e) eqn:El2; xs.
     { exists mm1. split; [reflexivity|]. split; assumption. }
     exists mm1. split; [reflexivity|]. split; assumption.
+  Qed.
+
+  Variable search : Z -> bytes -> nat -> option Z * nat.
+  Local Notation lineno := (CapDefs.ex_lineno len (mark_of lblk) search).
+  (* what one call of ex_lineno does (lineno_body_ok, for the `call` at hand) *)
+  Hypothesis Hc_lineno : forall mm i xr vb e n j, RInv mm i xr vb e -> (i <= length s)%nat -> int_ok xr ->
+    lineno xr s i = CapDefs.Ok (n, j) -> lineno_fit len (mark_of lblk) search xr s i ->
+    exists j' nb, call F_ex_lineno [VPtr bn 0] mm
+                  = Ok (VInt n, upd mm bn ([VPtr bs (Z.of_nat j')] : block) ++ [([VInt nb] : block)]) /\
+                  (j' = j \/ n = -2) /\ (i <= j')%nat /\ (j' <= length s)%nat /\ int_ok n.
+
+  Lemma exec_end0 fuel mm i xr vb e v0 na v5 : RInv mm i xr vb e -> int_ok e ->
+    exec call fuel rb_end0 (mkst (LC v0 na v5) mm) = ONormal (mkst (LC v0 na (VInt e)) mm).
+  Proof. intros R Ie. unfold rb_end0. xs. rewrite (load1 mm be _ (ri_end _ _ _ _ _ R)). xs. rewrite (int_ok_wrap _ Ie). reflexivity. Qed.
+  Lemma exec_lineno fuel mm i xr vb e v0 na v5 n j : RInv mm i xr vb e -> (i <= length s)%nat -> int_ok xr ->
+    lineno xr s i = CapDefs.Ok (n, j) -> lineno_fit len (mark_of lblk) search xr s i -> int_ok (n + 1) ->
+    exists mm' j', exec call fuel rb_lineno (mkst (LC v0 na v5) mm) = ONormal (mkst (LC v0 na v5) mm') /\
+                   RInv mm' j' xr vb (n + 1) /\ (j' = j \/ n = -2) /\ (i <= j')%nat /\ (j' <= length s)%nat /\ int_ok n.
+  Proof.
+    intros R Hi Ixr El Fl Fe1. destruct (Hc_lineno mm i xr vb e n j R Hi Ixr El Fl) as (j' & nb & Ecall & Rj & I1 & I2 & In).
+    set (mm1 := upd mm bn ([VPtr bs (Z.of_nat j')] : block) ++ [([VInt nb] : block)]) in *.
+    assert (R1 : RInv mm1 j' xr vb e) by (apply RInv_app; exact (RInv_loc _ _ _ _ _ _ R)).
+    unfold rb_lineno. xs. rewrite Ecall. xs. rewrite (int_ok_chk _ Fe1). xs. rewrite (int_ok_wrap _ Fe1).
+    rewrite (store1 mm1 be _ _ (ri_end _ _ _ _ _ R1)). xs.
+    eexists _, j'. split; [reflexivity|]. split; [exact (RInv_end _ _ _ _ _ _ R1)|]. repeat (split; [assumption|]). assumption.
+  Qed.
+  Lemma exec_beg fuel mm i xr vb e1 e v0 na : RInv mm i xr vb e1 -> int_ok e1 -> int_ok e -> -2147483648 < e1 -> 0 <= na < 2147483647 ->
+    (na = 0 \/ 0 <= e) ->
+    exec call fuel rb_beg (mkst (LC v0 na (VInt e)) mm)
+    = ONormal (mkst (LC v0 (na + 1) (VInt e)) (upd mm bb ([VInt (if na =? 0 then e1 - 1 else e - 1)] : block))).
+  Proof.
+    intros R I1 Ie Hlo Hna Hk. unfold rb_beg. xs. rewrite (int_ok_chk (na + 1)) by (unfold int_ok; lia). xs.
+    destruct (Z.eqb_spec na 0) as [->|Hne]; xs.
+    - rewrite (load1 mm be _ (ri_end _ _ _ _ _ R)). xs. rewrite (int_ok_wrap _ I1).
+      rewrite (int_ok_chk (e1 - 1)) by (unfold int_ok in *; lia). xs. rewrite (int_ok_wrap (e1 - 1)) by (unfold int_ok in *; lia).
+      rewrite (store1 mm bb _ _ (ri_beg _ _ _ _ _ R)). xs. reflexivity.
+    - destruct Hk as [Hk|Hk]; [lia|].
+      rewrite (int_ok_chk (e - 1)) by (unfold int_ok in *; lia). xs. rewrite (int_ok_wrap (e - 1)) by (unfold int_ok in *; lia).
+      rewrite (store1 mm bb _ _ (ri_beg _ _ _ _ _ R)). xs. reflexivity.
+  Qed.
+  Lemma exec_beg2 fuel mm v0 na v5 : 0 < na < 2147483647 ->
+    exec call fuel rb_beg2 (mkst (LC v0 na v5) mm) = ONormal (mkst (LC v0 (na + 1) v5) mm).
+  Proof.
+    intros Hna. unfold rb_beg2. xs. rewrite (int_ok_chk (na + 1)) by (unfold int_ok; lia). xs.
+    destruct (Z.eqb_spec na 0); [lia|]. xs. reflexivity.
+  Qed.
+  Lemma exec_neg fuel mm i xr vb e1 v0 na v5 : RInv mm i xr vb e1 -> int_ok e1 ->
+    exec call fuel rb_neg (mkst (LC v0 na v5) mm)
+    = if e1 <? 0 then OReturn (VInt 1) (mkst (LC v0 na v5) mm) else ONormal (mkst (LC v0 na v5) mm).
+  Proof.
+    intros R I1. unfold rb_neg. xs. rewrite (load1 mm be _ (ri_end _ _ _ _ _ R)). xs. rewrite (int_ok_wrap _ I1).
+    destruct (e1 <? 0); xs; reflexivity.
+  Qed.
+  Lemma exec_brk fuel mm i xr vb e v0 na v5 : RInv mm i xr vb e -> (i <= length s)%nat ->
+    exec call fuel rb_brk (mkst (LC v0 na v5) mm)
+    = if (nthb s i =? 0)%N then OBreak (mkst (LC v0 na v5) mm) else ONormal (mkst (LC v0 na v5) mm).
+  Proof.
+    intros R Hi. unfold rb_brk. rewrite exec_if. cbn [eval]. rewrite (eval_rbyte mm i xr vb e v0 na v5 R Hi). xs.
+    rewrite (sc_eqb_0 _ (nthb_lt256 s i H256)). destruct (nthb s i =? 0)%N; xs; reflexivity.
+  Qed.
+  Lemma exec_semi fuel mm i xr vb e v0 na v5 : RInv mm i xr vb e -> (i <= length s)%nat -> int_ok e -> -2147483648 < e ->
+    exec call fuel rb_semi (mkst (LC v0 na v5) mm)
+    = ONormal (mkst (LC v0 na v5) (if (nthb s i =? 59)%N then upd mm G_xrow ([VInt (e - 1)] : block) else mm)).
+  Proof.
+    intros R Hi Ie Hlo. unfold rb_semi. rewrite exec_if. cbn [eval]. rewrite (eval_rbyte mm i xr vb e v0 na v5 R Hi). xs.
+    rewrite (sx_eqb_59 _ (nthb_lt256 s i H256)). destruct (nthb s i =? 59)%N; xs; [|reflexivity].
+    rewrite (load1 mm be _ (ri_end _ _ _ _ _ R)). xs. rewrite (int_ok_wrap _ Ie).
+    rewrite (int_ok_chk (e - 1)) by (unfold int_ok in *; lia). xs. rewrite (int_ok_wrap (e - 1)) by (unfold int_ok in *; lia).
+    rewrite (store1 mm G_xrow _ _ (ri_xrow _ _ _ _ _ R)). xs. reflexivity.
+  Qed.
+
+  Lemma rloop_ok v0 : forall fm i xr k b e r fuel mm na v5 vb,
+    RInv mm i xr vb e -> (i <= length s)%nat -> int_ok xr -> int_ok e ->
+    (k = O /\ na = 0 /\ nthb s i <> 0%N \/ k <> O /\ 0 < na /\ vb = VInt b /\ int_ok b /\ 0 <= e) ->
+    na + 2 * Z.of_nat fm <= 2147483647 ->
+    rloop lineno fm s i xr k b e = CapDefs.Ok r -> rloop_fit len (mark_of lblk) search fm s i xr ->
+    (fm + S (length s) <= fuel)%nat ->
+    exists mm' i' na' v5', RInv mm' i' (snd r) (VInt (snd (fst (fst r)))) (snd (fst r)) /\
+      int_ok (snd (fst (fst r))) /\ int_ok (snd (fst r)) /\ int_ok (snd r) /\
+      exec call fuel (SWhile rbyte rbody) (mkst (LC v0 na v5) mm)
+      = if fst (fst (fst r)) then OReturn (VInt 1) (mkst (LC v0 na' v5') mm') else ONormal (mkst (LC v0 na' v5') mm').
+  Proof.
+    induction fm as [|fm IH]; intros i xr k b e r fuel mm na v5 vb R Hi Ixr Ie Hk Hna Hr Hfit Hf; [discriminate|].
+    destruct fuel as [|fuel]; [lia|]. cbn [rloop] in Hr. rewrite (rd_ok s i Hi) in Hr. cbn [CapDefs.bind] in Hr.
+    cbn [rloop_fit] in Hfit. pose proof (nthb_lt256 s i H256) as Hc.
+    rewrite exec_while, (eval_rbyte mm i xr vb e v0 na v5 R Hi). xcbn. rewrite (sc_eqb_0 _ Hc).
+    destruct (nthb s i =? 0)%N eqn:E0; cbn [negb].
+    { injection Hr as <-. cbn [fst snd]. destruct Hk as [(_ & _ & Hk)|(_ & _ & -> & Ib & _)]; [apply N.eqb_eq in E0; congruence|].
+      exists mm, i, na, v5. repeat (split; [assumption|]). reflexivity. }
+    destruct Hfit as (Fl & Hfit).
+    destruct (lineno xr s i) as [[n j]| | |] eqn:El; cbn [CapDefs.bind fst snd] in Hr; try discriminate.
+    cbv zeta in Hfit. cbn [fst snd] in Hfit. destruct Hfit as (Fe1 & Hfit).
+    assert (Hna0 : 0 <= na) by (destruct Hk as [(_ & -> & _)|(_ & H0 & _)]; lia).
+    unfold rbody at 1. rewrite exec_seq, (exec_end0 (S fuel) mm i xr vb e v0 na v5 R Ie).
+    destruct (exec_lineno (S fuel) mm i xr vb e v0 na (VInt e) n j R Hi Ixr El Fl Fe1) as (mm2 & j' & E2 & R2 & Rj & J1 & J2 & In).
+    rewrite exec_seq, E2.
+    set (e1 := n + 1) in *.
+    assert (He1lo : -2147483648 < e1) by (unfold e1, int_ok in *; lia).
+    rewrite exec_seq, (exec_beg (S fuel) mm2 j' xr vb e1 e v0 na R2 Fe1 Ie He1lo ltac:(lia)
+                         ltac:(destruct Hk as [(_ & -> & _)|(_ & _ & _ & _ & He)]; [left; reflexivity|right; exact He])).
+    set (b1 := match k with O => e1 - 1 | S _ => e - 1 end) in *.
+    assert (Eb1 : (if na =? 0 then e1 - 1 else e - 1) = b1).
+    { unfold b1. destruct Hk as [(-> & -> & _)|(Hk & H0 & _)]; [reflexivity|]. destruct (Z.eqb_spec na 0); [lia|]. destruct k; [congruence|reflexivity]. }
+    rewrite Eb1.
+    assert (Ib1 : int_ok b1).
+    { unfold b1, e1 in *. destruct Hk as [(-> & _)|(Hk & _ & _ & _ & He)]; [unfold int_ok in *; lia|]. destruct k; [congruence|]. unfold int_ok in *; lia. }
+    set (mm3 := upd mm2 bb ([VInt b1] : block)).
+    assert (R3 : RInv mm3 j' xr (VInt b1) e1) by (exact (RInv_beg _ _ _ _ _ _ R2)).
+    rewrite exec_seq, (exec_beg2 (S fuel) mm3 v0 (na + 1) (VInt e) ltac:(lia)).
+    rewrite exec_seq, (exec_neg (S fuel) mm3 j' xr (VInt b1) e1 v0 (na + 1 + 1) (VInt e) R3 Fe1).
+    destruct (e1 <? 0) eqn:Eneg.
+    { injection Hr as <-. cbn [fst snd]. exists mm3, j', (na + 1 + 1), (VInt e). repeat (split; [assumption|]). reflexivity. }
+    assert (j' = j) as -> by (destruct Rj as [Rj|Rj]; [exact Rj|apply Z.ltb_ge in Eneg; unfold e1 in Eneg; lia]).
+    destruct (CapDefs.skip_while (S (length s)) sep_pre s j) as [jsep| | |] eqn:Esk; cbn [CapDefs.bind] in Hr; try discriminate.
+    destruct (sep_loop_ok xr (VInt b1) e1 v0 (na + 1 + 1) (VInt e) _ j jsep (S fuel) mm3 R3 J2 Esk ltac:(lia)) as (mm4 & E4 & R4 & K1 & K2).
+    rewrite exec_seq, E4.
+    rewrite (rd_ok s jsep K2) in Hr. cbn [CapDefs.bind] in Hr.
+    rewrite exec_seq, (exec_brk (S fuel) mm4 jsep xr (VInt b1) e1 v0 (na + 1 + 1) (VInt e) R4 K2).
+    destruct (nthb s jsep =? 0)%N eqn:Ec2.
+    { injection Hr as <-. cbn [fst snd]. exists mm4, jsep, (na + 1 + 1), (VInt e). repeat (split; [assumption|]). reflexivity. }
+    rewrite exec_seq, (exec_semi (S fuel) mm4 jsep xr (VInt b1) e1 v0 (na + 1 + 1) (VInt e) R4 K2 Fe1 He1lo).
+    set (xr2 := if (nthb s jsep =? 59)%N then e1 - 1 else xr) in *.
+    match goal with |- context [exec call (S fuel) (SExpr inc_loc) (mkst _ ?mmx)] => set (mm5 := mmx) end.
+    assert (R5 : RInv mm5 jsep xr2 (VInt b1) e1) by (unfold mm5, xr2; destruct (nthb s jsep =? 59)%N; [exact (RInv_xrow _ _ _ _ _ _ R4)|exact R4]).
+    assert (Ixr2 : int_ok xr2) by (unfold xr2; destruct (nthb s jsep =? 59)%N; [unfold e1, int_ok in *; lia|exact Ixr]).
+    rewrite exec_expr, (eval_inc_loc mm5 jsep xr2 (VInt b1) e1 v0 (na + 1 + 1) (VInt e) R5).
+    assert (jsep < length s)%nat by (apply nthb_nz_lt; intro E; rewrite E in Ec2; discriminate).
+    apply (IH (S jsep) xr2 (S k) b1 e1 r fuel _ (na + 1 + 1) (VInt e) (VInt b1) (RInv_loc _ _ _ _ _ (S jsep) R5) ltac:(lia) Ixr2 Fe1).
+    - right. split; [discriminate|]. split; [lia|]. split; [reflexivity|]. split; [exact Ib1|]. apply Z.ltb_ge in Eneg. exact Eneg.
+    - lia.
+    - exact Hr.
+    - exact Hfit.
+    - lia.
   Qed.
 End Region.
